@@ -618,8 +618,21 @@ func main() {
 						if isMux && hasEmpty {
 							continue // ServeMux answers empty segments itself (redirect to the cleaned path)
 						}
-						for mode := 0; mode < 3; mode++ {
+						for mode := 0; mode < 5; mode++ {
 							tunnel := mode == 1
+							target := target
+							if mode >= 3 {
+								// an EMPTY element in the query string (a leading "&", a doubled "&&"): it carries no parameter and
+								// changes nothing
+								if m.name != "bare" || len(qs) == 0 {
+									continue
+								}
+								if mode == 3 {
+									target = "/" + strings.Join(row.Path, "/") + "?&" + strings.Join(qs, "&")
+								} else {
+									target = "/" + strings.Join(row.Path, "/") + "?&&" + strings.Join(qs, "&&")
+								}
+							}
 							if tunnel && (m.name != "bare" || len(qs) == 0) {
 								continue // a client never tunnels an empty query
 							}
@@ -695,6 +708,8 @@ func main() {
 								}
 								if mode == 2 {
 									key = "C05/stray-override-on-" + row.Verb + "/" + key[4:]
+								} else if mode >= 3 {
+									key = "C05/empty-query-element/" + key[4:]
 								}
 								emitViolation(key, fmt.Sprintf("%s %s (method header %s, mount %s, tunnelled %v): observed %s (HTTP %d), the specification admits %v",
 									row.Verb, target, row.Hdr, m.name, tunnel, res.obs, res.status, exp), cs)
